@@ -94,5 +94,6 @@ std::string sty(unsigned n);
 std::string maskTo(unsigned n, const std::string& e);
 std::string sextOf(unsigned n, const std::string& e);
 bool isVisibleInst(const Instruction& I);
+extern bool gRefcountMovers;    // opt-in reduction: reference-count style +-1 RMWs are not context-switch points
 bool compatibleFT(FunctionType* A, FunctionType* B);
 std::string sanitize(StringRef s);
